@@ -3,6 +3,7 @@
 package ring
 
 import (
+	"errors"
 	"sort"
 	"time"
 )
@@ -70,4 +71,13 @@ func vfHasID(rs ReplicationSet, id string) bool {
 		}
 	}
 	return false
+}
+
+func vfErrIs(err, target error) bool { return errors.Is(err, target) }
+
+// vfAssumeTimestampsBelow bounds all heartbeat timestamps of d.
+func vfAssumeTimestampsBelow(d *Desc, max int64) {
+	for _, id := range vfSortedIDs(d) {
+		vfAssume(d.Ingesters[id].Timestamp <= max)
+	}
 }
